@@ -783,6 +783,107 @@ def explicit_schedules(ctx, i):
     return [[], [LAST] * 60, [ctx.rng.randint(0, 50) for _ in range(60)]]
 
 
+def concurrent_data_oracle(ctx):
+    """
+    Concurrent evaluations that take their evaluatable data from context-local storage each see only their own data:
+    several requirement/AHB evaluations run concurrently on ONE shared evaluator instance, every evaluation has its own
+    EvaluatableData in a ContextVar, the async evaluate_<key> methods yield a prescribed number of times and answer from the
+    data they were handed. Each result must equal the result of running that evaluation alone (implementation only).
+    """
+    import itertools
+    from contextvars import ContextVar
+
+    import inject
+    from efoli import EdifactFormat, EdifactFormatVersion
+    from ahbicht.content_evaluation.evaluationdatatypes import EvaluatableData, EvaluatableDataProvider
+    from ahbicht.content_evaluation.fc_evaluators import FcEvaluator
+    from ahbicht.content_evaluation.rc_evaluators import RcEvaluator
+    from ahbicht.content_evaluation.token_logic_provider import SingletonTokenLogicProvider, TokenLogicProvider
+    from ahbicht.expressions.ahb_expression_evaluation import evaluate_ahb_expression_tree
+    from ahbicht.expressions.expression_resolver import parse_expression_including_unresolved_subexpressions
+    from ahbicht.expressions.hints_provider import DictBasedHintsProvider
+    from ahbicht.expressions.package_expansion import DictBasedPackageResolver
+    from ahbicht.models.condition_nodes import ConditionFulfilledValue as V
+
+    global _H
+    fmt, ver = EdifactFormat.UTILMD, EdifactFormatVersion.FV2210
+    data_var = ContextVar("verif_data", default=None)
+    naps = {}
+
+    class Rc(RcEvaluator):
+        edifact_format, edifact_format_version = fmt, ver
+
+        def _get_default_context(self):
+            return None
+
+    def make(k):
+        async def ev(self, evaluatable_data, context):  # pylint: disable=unused-argument
+            for _ in range(naps.get((evaluatable_data.body["who"], k), 0)):
+                await asyncio.sleep(0)
+            return V[evaluatable_data.body[k]]
+
+        return ev
+
+    for k in ("1", "2", "3"):
+        setattr(Rc, f"evaluate_{k}", make(k))
+
+    class Fc(FcEvaluator):
+        edifact_format, edifact_format_version = fmt, ver
+
+    hp, pr = DictBasedHintsProvider({}), DictBasedPackageResolver({})
+    for x in (hp, pr):
+        x.edifact_format, x.edifact_format_version = fmt, ver
+    rc_ev = Rc()
+
+    def cfg(binder):
+        binder.bind(TokenLogicProvider, SingletonTokenLogicProvider([rc_ev, Fc(), hp, pr]))
+        binder.bind_to_provider(EvaluatableDataProvider, lambda: EvaluatableData(body=data_var.get(), edifact_format=fmt, edifact_format_version=ver))
+
+    inject.clear_and_configure(cfg)
+    n = 0
+    try:
+        exprs_ = ["Muss [1] U [2]", "Muss [1] O [2] Kann [3]", "X [2] U ([1] O [3])"]
+        states = ("FULFILLED", "UNFULFILLED")
+        for expr in exprs_[: 2 if ctx.quick else 3]:
+            tree = asyncio.run(parse_expression_including_unresolved_subexpressions(expr))
+            datas = [{"who": "A", "1": "FULFILLED", "2": "FULFILLED", "3": "UNFULFILLED"}, {"who": "B", "1": "UNFULFILLED", "2": "FULFILLED", "3": "FULFILLED"},
+                     {"who": "C", "1": "FULFILLED", "2": "UNFULFILLED", "3": "FULFILLED"}]
+
+            async def one(d):
+                data_var.set(d)
+                r = await evaluate_ahb_expression_tree(tree)
+                return (str(r.requirement_indicator), r.requirement_constraint_evaluation_result.requirement_constraints_fulfilled)
+
+            alone = []
+            for d in datas:
+                naps.clear()
+                alone.append(asyncio.run(one(d)))
+            keys = [(d["who"], k) for d in datas[:2] for k in ("1", "2")]
+            rng_vecs = list(itertools.product(range(3), repeat=len(keys))) if not ctx.quick else [tuple(ctx.rng.randint(0, 2) for _ in keys) for _ in range(25)] + [(0,) * len(keys), (1, 0, 0, 0), (0, 0, 1, 0)]
+            for vec in rng_vecs:
+                for order in ((0, 1), (1, 0), (0, 1, 2)):
+                    naps.clear()
+                    naps.update(dict(zip(keys, vec)))
+
+                    async def main():
+                        return await asyncio.gather(*[one(datas[i]) for i in order])
+
+                    try:
+                        got = asyncio.run(main())
+                    except BaseException as e:  # pylint: disable=broad-except
+                        got = repr(e)
+                    n += 1
+                    want = [alone[i] for i in order]
+                    if got != want:
+                        ctx.fail(f"own-data|{expr}|{vec}|{order}", {"kind": "concurrent_data", "expression": expr, "data": [datas[i] for i in order], "yields": dict(zip(map(str, keys), vec))},
+                                 f"each evaluation as when run alone: {want}", f"{got}", "oracle: concurrent evaluations with context-local evaluatable data each see only their own data")
+                        break
+    finally:
+        inject.clear()
+        _H = None
+    return n
+
+
 def run(ctx):
     from vlib import impl  # noqa: F401
 
@@ -792,6 +893,7 @@ def run(ctx):
     terms, meta, seen = [], [], set()
     n_runs = n_nontrivial = 0
     exhaustive = []
+    n_runs += concurrent_data_oracle(ctx)
     S = scenarios(ctx)
     for sc in S:
         if sc.fn is None:
